@@ -599,6 +599,10 @@ def c07_unknown_point_leaks_name():
     return KGSym('q') in k._context._context[0]
 
 
+def c01_reshape_string_vector_shape():
+    return _canon(_K()('5:^"abc"')) == _S("abcab") and _canon(_K()('[5]:^"abc"')) != _S("abcab")
+
+
 PROBES = {
     "C01/split-near-equal": c01_split, "C01/rotate-matrix-flattens": c01_rotate, "C01/reverse-atom-raises": c01_reverse_atom,
     "C01/format-list-recursion": c01_format_list, "C01/first-of-string-is-string": c01_first_string, "C01/max-nested": c01_max_nested,
@@ -624,6 +628,7 @@ PROBES = {
     "C11/two-character-classes": c11_char_class,
     "C11/r-negative-number": c11_r_negative, "C16/directory-prefix-key-raises": c16_directory_key,
     "C14/cleanup-with-pending-calls": c14_cleanup_with_pending_calls,
+    "C01/reshape-string-one-element-shape": c01_reshape_string_vector_shape,
     "C01/match-real-lists-exact": c01_match_real_lists_exact, "C01/floor-integer-beyond-2^53": c01_floor_big_integer,
     "C03/inner-lambda-parameters-counted-for-outer": c03_inner_lambda_arity, "C03/projection-with-list-argument": c03_projection_list_argument,
     "C03/function-body-is-a-projection": c03_body_is_projection, "C05/int64-overflow-compiled-bignum": c05_int64_overflow,
